@@ -6,7 +6,8 @@ import libcst as _cst
 import os as _os
 import re as _re
 from codemodder.codetf import Change as _Change, ChangeSet as _ChangeSet, UnfixedFinding as _UnfixedFinding
-REG.spec_globals = {"fnmatch": _fnmatch, "cst": _cst, "os": _os, "re": _re, "Change": _Change, "ChangeSet": _ChangeSet,
+from pathlib import Path as _Path
+REG.spec_globals = {"Path": _Path, "fnmatch": _fnmatch, "cst": _cst, "os": _os, "re": _re, "Change": _Change, "ChangeSet": _ChangeSet,
                     "UnfixedFinding": _UnfixedFinding}
 
 # ---- ghost state ---------------------------------------------------------------------------------
@@ -15,6 +16,21 @@ REG.ghosts = {
     "report_written": "bool",            # a CodeTF report file has been written completely during this call
     "last_run_status": "int",            # value returned by the last completed codemodder.run()
 }
+
+# ---- dependencies -------------------------------------------------------------------------------------
+record("codemodder.dependency.Dependency", kind="ref",
+       fields={"requirement": "Opaque", "description": "str", "_license": "Opaque", "oss_link": "str", "package_link": "str",
+               "hashes": "list[str]", "type_stubs": "Opaque"})
+record("codemodder.project_analysis.file_parsers.package_store.PackageStore", kind="ref",
+       fields={"type": "Opaque", "file": "Path", "dependencies": "set[Opaque]", "py_versions": "Opaque"})
+record("codemodder.dependency_management.base_dependency_writer.DependencyWriter", kind="ref",
+       fields={"dependency_store": "PackageStore", "path": "Path", "parent_directory": "Path"})
+for _w in ("requirements_txt_writer.RequirementsTxtWriter", "setupcfg_writer.SetupCfgWriter", "pyproject_writer.PyprojectWriter",
+           "setup_py_writer.SetupPyWriter"):
+    record("codemodder.dependency_management." + _w, kind="ref", fields={},
+           bases=["codemodder.dependency_management.base_dependency_writer.DependencyWriter"])
+record("codemodder.dependency_management.dependency_manager.DependencyManager", kind="ref",
+       fields={"dependencies_store": "PackageStore", "parent_directory": "Path"})
 
 # ---- libcst positions (frozen dataclasses -> value records) ---------------------------------------
 record("libcst._position.CodePosition", kind="val", fields={"line": "int", "column": "int"})
@@ -44,7 +60,7 @@ record("codemodder.codetf.UnfixedFinding", kind="val",
 # ---- file context / transformers --------------------------------------------------------------------
 record("codemodder.file_context.FileContext", kind="ref",
        fields={"base_directory": "Path", "file_path": "Path", "line_exclude": "list[int]", "line_include": "list[int]",
-               "results": "list[Result] | None", "dependencies": "set[Opaque]", "codemod_changes": "list[Change]",
+               "results": "list[Result] | None", "dependencies": "set[Dependency]", "codemod_changes": "list[Change]",
                "unfixed_findings": "list[UnfixedFinding]", "changesets": "list[ChangeSet]", "failures": "list[Path]",
                "timer": "Opaque"})
 record("codemodder.codemods.base_visitor.UtilsMixin", kind="ref",
@@ -73,8 +89,8 @@ record("codemodder.context.CodemodExecutionContext", kind="ref",
        fields={"directory": "Path", "dry_run": "bool", "verbose": "bool", "path_include": "list[str]", "path_exclude": "list[str]",
                "max_workers": "int", "tool_result_files_map": "dict[str, list[str]]",
                "_changesets_by_codemod": "dict[str, list[ChangeSet]]", "_failures_by_codemod": "dict[str, list[Path]]",
-               "_unfixed_findings_by_codemod": "dict[str, list[UnfixedFinding]]", "dependencies": "dict[str, set[Opaque]]",
-               "_dependency_update_by_codemod": "dict[str, Opaque]", "registry": "Opaque", "repo_manager": "Opaque",
+               "_unfixed_findings_by_codemod": "dict[str, list[UnfixedFinding]]", "dependencies": "dict[str, set[Dependency]]",
+               "_dependency_update_by_codemod": "dict[str, PackageStore | None]", "registry": "Opaque", "repo_manager": "Opaque",
                "providers": "Opaque", "timer": "Opaque", "semgrep_prefilter_results": "ResultSet | None",
                "openai_llm_client": "Opaque", "azure_llama_llm_client": "Opaque"})
 record("codemodder.codemods.base_transformer.BaseTransformerPipeline", kind="ref", fields={"transformers": "list[Opaque]"})
